@@ -6,7 +6,9 @@ import (
 	"crypto/ed25519"
 	"encoding/base64"
 	"fmt"
+	"strings"
 	"time"
+	"unicode/utf16"
 
 	"pgregory.net/rapid"
 )
@@ -379,7 +381,71 @@ func c05Gen(t *rapid.T) c05Case {
 		c.Floats = true
 	}
 	c.Event = c05Wire(p, extras, c.Origin, c.Other)
+	if !c.Floats && rapid.IntRange(0, 3).Draw(t, "respelt") == 0 {
+		// the same event in another spelling (escapes in keys and strings — the "type" among them —,
+		// key order, whitespace): RedactEventJSON and the trusted constructors take any JSON text
+		if tr, err := evTree(c.Event); err == nil {
+			c.Event = vfBytes(c05Respell(tr, rapid.IntRange(0, 3).Draw(t, "respellShift")))
+		}
+	}
 	return c
+}
+
+// c05Respell writes the tree with one character of every key and string value as a \uXXXX escape
+// (surrogate pair for astral characters), "/" as "\/", and blanks after separators. Numbers are left
+// as they are.
+func c05Respell(v jv, shift int) string {
+	var sb strings.Builder
+	str := func(x string) {
+		rs := []rune(x)
+		sb.WriteByte('"')
+		for i, r := range rs {
+			switch {
+			case len(rs) > 0 && i == (len(rs)+shift)%len(rs) && r >= 0x10000:
+				r1, r2 := utf16.EncodeRune(r)
+				fmt.Fprintf(&sb, "\\u%04x\\u%04X", r1, r2)
+			case len(rs) > 0 && i == (len(rs)+shift)%len(rs) && r != 0xFFFD:
+				fmt.Fprintf(&sb, "\\u%04x", r)
+			case r == '/':
+				sb.WriteString(`\/`)
+			default:
+				q := jplain(jstr(string(r)))
+				sb.WriteString(q[1 : len(q)-1])
+			}
+		}
+		sb.WriteByte('"')
+	}
+	var walk func(x jv)
+	walk = func(x jv) {
+		switch x.K {
+		case 'o':
+			sb.WriteString("{ ")
+			for i, m := range x.O {
+				if i > 0 {
+					sb.WriteString(" ,")
+				}
+				str(m.Key)
+				sb.WriteString(" : ")
+				walk(m.Val)
+			}
+			sb.WriteString("}")
+		case 'a':
+			sb.WriteString("[")
+			for i, e := range x.A {
+				if i > 0 {
+					sb.WriteString(", ")
+				}
+				walk(e)
+			}
+			sb.WriteString(" ]")
+		case 's':
+			str(x.S)
+		default:
+			sb.WriteString(jplain(x))
+		}
+	}
+	walk(v)
+	return sb.String()
 }
 
 var c05Types = []string{"m.room.member", "m.room.create", "m.room.join_rules", "m.room.power_levels", "m.room.aliases",
